@@ -250,9 +250,9 @@ def opt_kwargs(opt):
 
 def cell_tla(c):
     return ('[id |-> %d, form |-> "%s", x |-> "%s", bom |-> %s, cm |-> "%s", ie |-> "%s", c |-> <<"%s", "%s">>, '
-            'path |-> "%s", oe |-> "%s", errs |-> "%s", opt |-> "%s", bj |-> "%s", bp |-> "%s"]'
+            'path |-> "%s", oe |-> "%s", errs |-> "%s", opt |-> "%s", bj |-> "%s", bp |-> "%s", ent |-> "%s"]'
             % (c["id"], c["form"], c["x"], "TRUE" if c["bom"] else "FALSE", c["cm"], c["ie"], c["c"][0], c["c"][1],
-               c["path"], c["oe"], c["errs"], c["opt"], c["bj"], c["bp"]))
+               c["path"], c["oe"], c["errs"], c["opt"], c["bj"], c["bp"], c["ent"]))
 
 
 CFG = """CONSTANTS Codecs <- T_Spellings  Canon <- T_Canon  EncT <- T_EncT  DecT <- T_DecT  EncE <- T_EncE  Prefix <- T_Prefix  JunkT <- T_JunkT
@@ -291,7 +291,12 @@ def make_cells(run, tb):
         # TemplateLookup instead of Template on about half of the file-based cells
         on_disk = kw["path"] in ("moddir", "reload")
         kw["opt"] = rng.choice(OPTS[1:]) if (on_disk and rng.random() < 0.7) or rng.random() < 0.15 else "none"
-        kw["via_lookup"] = kw["path"] != "bytes" and rng.random() < 0.5
+        # the entry the template comes in by, and with it where the options are given (Template or TemplateLookup)
+        r = rng.random()
+        if kw["path"] == "bytes":
+            kw["ent"] = "direct" if r < 0.5 else "put_string" if r < 0.8 else "put_template"
+        else:
+            kw["ent"] = "direct" if r < 0.45 else "lookup" if r < 0.9 else "put_template"
         cells.append(kw)
 
     spell = tb["spell"]
@@ -522,15 +527,30 @@ def _observe(job, phase):
     path = job["path"]
     modpath = None
     try:
+        from mako.lookup import TemplateLookup
+        ent = job["ent"]
+        # a lookup configured differently, for templates that are built elsewhere and only placed into it
+        other = {"input_encoding": "koi8-r", "output_encoding": "cp500", "encoding_errors": "ignore"}
+
+        def placed(t0):
+            lk = TemplateLookup([os.path.dirname(job["fn"])], **other)
+            lk.put_template("placed.html", t0)
+            return lk.get_template("placed.html")
         if path == "bytes":
-            t = Template(text=raw, **kw, **okw)
+            if ent == "put_string":
+                lk = TemplateLookup(**kw, **okw)
+                lk.put_string("put.html", raw)
+                t = lk.get_template("put.html")
+            elif ent == "put_template":
+                t = placed(Template(text=raw, uri="placed.html", **kw, **okw))
+            else:
+                t = Template(text=raw, **kw, **okw)
         else:
             if phase == "A":
                 with open(job["fn"], "wb") as f:
                     f.write(raw)
                 os.utime(job["fn"], (1_000_000_000, 1_000_000_000))
-            if job.get("via_lookup"):      # the same options given to a TemplateLookup, which hands them on
-                from mako.lookup import TemplateLookup
+            if ent == "lookup":      # the same options given to a TemplateLookup, which hands them on
                 lkw = dict(kw)
                 lkw.update(okw)
                 if path != "file":
@@ -541,8 +561,10 @@ def _observe(job, phase):
             else:
                 def make():
                     if path == "file":
-                        return Template(filename=job["fn"], **kw, **okw)
-                    return Template(filename=job["fn"], module_directory=job["md"], **kw, **okw)
+                        t0 = Template(filename=job["fn"], **kw, **okw)
+                    else:
+                        t0 = Template(filename=job["fn"], module_directory=job["md"], **kw, **okw)
+                    return placed(t0) if ent == "put_template" else t0
             if path == "file":
                 t = make()
             else:
@@ -707,7 +729,7 @@ def check(run):
         d = os.path.join(root, "c%05d" % c["id"])
         os.makedirs(d)
         jobs.append({"id": c["id"], "raw": concretise(c, SYM), "path": c["path"], "ie": PY.get(c["ie"], NONE), "oe": PY.get(c["oe"], NONE), "errs": c["errs"],
-                     "opt": c["opt"], "via_lookup": c["via_lookup"],
+                     "opt": c["opt"], "ent": c["ent"],
                      "fn": os.path.join(d, "t.html"), "md": os.path.join(d, "mods")})
     # the compositional abstraction (per-symbol tables) must agree with CPython's strict decode of the WHOLE input on
     # whether the input is decodable in the codec the specification declares for it -- otherwise the machinery is wrong
@@ -754,10 +776,11 @@ def check(run):
                 clauses[clause] = clauses.get(clause, 0) + 1
                 pth = c["path"] if which != "first" or c["path"] != "reload" else "moddir"
                 sig = "%s:%s:%s" % (clause, pth, decl_style(c)) + (":opt=" + c["opt"] if c["opt"] != "none" else "") + \
+                    (":entry=" + c["ent"] if c["ent"] in ("put_string", "put_template") else "") + \
                     (":junk=%s@%s" % (JUNK_KIND.get(c["bj"], "truncated"), c["bp"]) if c["bj"] != NONE else "")
                 nviol += 1
                 run.violation(sig, "cell %s on path %s: clause %s differs; expected %s, observed %s"
-                              % ({k: c[k] for k in ("form", "x", "bom", "cm", "ie", "c", "oe", "errs", "opt", "via_lookup", "bj", "bp")}, pth, clause,
+                              % ({k: c[k] for k in ("form", "x", "bom", "cm", "ie", "c", "oe", "errs", "opt", "ent", "bj", "bp")}, pth, clause,
                                  _short(alts[0]), _short(obs)),
                               {"cell": c, "template": jobs[c["id"] - 1]["raw"], "expected": alts, "observed": obs,
                                "symbols": {s: SYM[s] for s in set(c["c"]) | set(sum([e.get("uni", []) for e in expected[c["id"]]], []))}})
